@@ -62,6 +62,7 @@ type Miner struct {
 	R Rand
 	// kinds of outputs the generator may create (activation dependent)
 	extra uint32
+	ZeroValueOutputs bool // some transactions carry an extra output of value 0 to a wallet address
 }
 
 // outKinds returns the spendable output kinds allowed at the given height.
@@ -222,6 +223,10 @@ func (m *Miner) MakeTx(height uint32, ins []CoinRef, nOut int, fee uint64, corru
 			kind = KNonStd
 		}
 		t.Out = append(t.Out, TxOut{v, m.W.Script(kind, m.R.Intn(m.W.NKeys()))})
+	}
+	if m.ZeroValueOutputs && m.R.Chance(0.15) {
+		// a zero-value output to an ordinary address (legal; an address may then hold outputs that add up to nothing)
+		t.Out = append(t.Out, TxOut{0, m.W.Script(kinds[m.R.Intn(len(kinds))], m.R.Intn(m.W.NKeys()))})
 	}
 	m.SignAll(t, spent, corruptIdx, corrupt)
 	return t
